@@ -139,7 +139,13 @@ pub fn conclude(r: Report<'_>) -> ! {
     let mut cov = Map::new();
     cov.insert("evaluations".into(), json!(stats.get("evaluations")));
     cov.insert("distinct_nontrivial".into(), json!(stats.get("distinct_nontrivial")));
-    cov.insert("samples".into(), json!(stats.samples));
+    // a run that was cut short (workers died before reporting) still writes well-formed evidence
+    let samples: Vec<Value> = if stats.samples.is_empty() {
+        stats.violations.iter().take(2).cloned().chain(std::iter::once(json!({"note": "no case completed normally in this run"}))).take(2).collect()
+    } else {
+        stats.samples.clone()
+    };
+    cov.insert("samples".into(), json!(samples));
     cov.insert("distinct_outcomes".into(), json!(stats.outcomes.len()));
     cov.insert(
         "outcome_classes".into(),
